@@ -14,7 +14,6 @@ import (
 	"time"
 
 	"github.com/AdguardTeam/golibs/timeutil"
-	"golang.org/x/crypto/bcrypt"
 )
 
 // Frame and value monitors, independent of the Coq model.
@@ -482,6 +481,9 @@ func (c *c13Vals) rest(f *c13FP, old, new yobj) {
 func (c *c13Vals) want(newDoc yobj, v any, path ...any) {
 	c.claim(path...)
 	got, ok := c13Get(newDoc, path)
+	if ok && reflect.DeepEqual(got, v) {
+		return
+	}
 	if !ok || !reflect.DeepEqual(c13Norm(got), c13Norm(v)) {
 		c.fails = append(c.fails, fmt.Sprintf("step %d: %s is %s, the step's documented result is %s", c.step, c13Path(path), c13Show(got, ok), c13Show(v, true)))
 	}
@@ -572,7 +574,7 @@ func c13StepValues(n int, old, new yobj, dataDir string) []string {
 		// without a password nothing is created (auth_name is dropped)
 		c.claim("auth_name")
 		pv, hasPass := old["auth_pass"]
-		pass, isStr := pv.(string)
+		_, isStr := pv.(string)
 		name, nameStr := old["auth_name"].(string)
 		if hasPass && (isStr || pv == nil) && (nameStr || old["auth_name"] == nil) {
 			c.claim("users")
@@ -588,8 +590,10 @@ func c13StepValues(n int, old, new yobj, dataDir string) []string {
 				c.fails = append(c.fails, "step 5: users is "+c13Show(new["users"], true)+", the step's documented result is one user")
 			case hasName && !reflect.DeepEqual(u["name"], name):
 				c.fails = append(c.fails, fmt.Sprintf("step 5: users[0].name is %v, auth_name was %q", u["name"], name))
-			case !strings.HasPrefix(h, c13Marker) && bcrypt.CompareHashAndPassword([]byte(h), []byte(pass)) != nil:
-				c.fails = append(c.fails, "step 5: users[0].password is not a hash of auth_pass")
+			case !strings.HasPrefix(h, c13Marker) && !c13IsBcrypt(h):
+				// that it is a hash of THIS password is verified once per document
+				// on the body Migrate returned (c13MarkHash); here: its form
+				c.fails = append(c.fails, "step 5: users[0].password is not a bcrypt hash: "+c13Show(h, true))
 			}
 			c.gone(new, "auth_pass")
 			c.gone(new, "auth_name")
@@ -864,6 +868,11 @@ func c13StepValues(n int, old, new yobj, dataDir string) []string {
 	return c.fails
 }
 
+// c13IsBcrypt: the textual form of a bcrypt hash of the default cost.
+func c13IsBcrypt(h string) bool {
+	return len(h) == 60 && strings.HasPrefix(h, "$2") && strings.HasPrefix(h[3:], "$10$")
+}
+
 // ---- Running the real steps one by one.
 
 // stepwise decodes body again, runs the REAL steps one at a time on the tree
@@ -909,8 +918,17 @@ func (h *c13H) stepwise(body []byte, top yobj, cur, target uint, one c13Run, wha
 		}
 		h.out.Class(fmt.Sprintf("frame-step-%02d", k+1))
 	}
-	pass, hasPass := c13Pass(top)
-	c13MarkHash(tree, pass, hasPass)
+	// the salted hash differs from run to run: its form was judged at step 5,
+	// its value is verified on the body Migrate returned
+	if pass, hasPass := c13Pass(top); hasPass && cur < 5 && target >= 5 {
+		if us, _ := tree["users"].([]any); len(us) > 0 {
+			if u, _ := c13IsMap(us[0]); u != nil {
+				if hs, _ := u["password"].(string); c13IsBcrypt(hs) {
+					u["password"] = c13Marker + pass
+				}
+			}
+		}
+	}
 	final, _ := c13Norm(tree).(map[string]any)
 	if !reflect.DeepEqual(final, map[string]any(one.tree)) {
 		fail("stepwise-differs", "the steps run one by one on the decoded tree end in another document than the body Migrate returned")
@@ -1075,10 +1093,19 @@ func (h *c13H) validDocs() {
 			return l
 		}
 		doc := VerifC13WithDefaults(ver, VerifC13Doc(ver, clients([]int{0, 1, 2, 3, 4}), ver == 0 || ver == 4), defaults)
-		h.doc(c13Marshal(doc), fmt.Sprintf("valid document of version %d, every section and setting", ver), cls,
+		body := c13Marshal(doc)
+		if !h.out.Thorough() {
+			// the monitors look at every step of the one run; the quick tier
+			// leaves split runs of these large documents to the thorough tier
+			if top, err := c13Parse(body); err == nil {
+				h.mig(body, top, h.last, fmt.Sprintf("valid document of version %d, every section and setting", ver), cls)
+			}
+			continue
+		}
+		h.doc(body, fmt.Sprintf("valid document of version %d, every section and setting", ver), cls,
 			[]uint{uint(ver) + 1, (uint(ver) + h.last + 1) / 2}, 0)
 		doc = VerifC13WithDefaults(ver, VerifC13Doc(ver, clients([]int{2, 4, 0, 3, 1, 2}), false), defaults)
-		body := c13Marshal(doc)
+		body = c13Marshal(doc)
 		if top, err := c13Parse(body); err == nil {
 			h.mig(body, top, h.last, fmt.Sprintf("valid document of version %d, six clients in another order", ver), cls)
 		}
